@@ -148,13 +148,39 @@ def chk_acknak(kind, res, nrdy, ack) -> Result:
     return r
 
 
-def chk_wire_seq(frames) -> Result:
+def chk_wire_seq(frames, debug=False) -> Result:
     """Several frames written one after another through ONE protocol instance: what is written for a frame must not
     depend on what the instance wrote before.  frames = [["ack"|"nak", res, nrdy, ack] | ["data", frm, retx, ack, hex] | ["rst"]]"""
     import bellows.ash as ash
 
+    import logging
+
     plan = {"t": "wseq", "frames": frames}
-    r = Result(nontrivial=len(frames) > 1, classes=["wire-sequence"], key=[9, frames])
+    r = Result(nontrivial=len(frames) > 1, classes=["wire-sequence"], key=[9, frames, bool(debug)])
+    lg = logging.getLogger("bellows.ash")
+    old_level, old_prop = lg.level, lg.propagate
+    old_disable = logging.root.manager.disable
+    if debug:
+        # what goes on the wire must not depend on the log level (debug logging is what people turn on to look at frames)
+        plan["debug"] = True
+        logging.disable(logging.NOTSET)
+        lg.setLevel(logging.DEBUG)
+        lg.propagate = False
+        if not any(isinstance(h_, logging.NullHandler) for h_ in lg.handlers):
+            lg.addHandler(logging.NullHandler())
+        r.cls("debug-logging-on")
+    try:
+        return _wire_seq(frames, plan, r)
+    finally:
+        lg.setLevel(old_level)
+        lg.propagate = old_prop
+        if debug:
+            logging.disable(old_disable)
+
+
+def _wire_seq(frames, plan, r):
+    import bellows.ash as ash
+
     proto, tr, up = make_host()
     queued = []  # the very objects handed to write(): a transport may keep them and send them later
     _w = tr.write
@@ -373,7 +399,7 @@ DISPATCH = {
     "corrupt": lambda p: chk_corrupt(p["raw"], p["bits"]),
     "lfsr": lambda p: chk_lfsr(),
     "send": lambda p: chk_send(bytes.fromhex(p["payload"]), p["tx"], p["rx"]),
-    "wseq": lambda p: chk_wire_seq(p["frames"]),
+    "wseq": lambda p: chk_wire_seq(p["frames"], p.get("debug", False)),
 }
 
 
@@ -472,5 +498,5 @@ def run(ctx):
         st.tuples(st.just("data"), st.integers(0, 7), st.integers(0, 1), st.integers(0, 7), st.binary(min_size=3, max_size=20).map(bytes.hex)).map(list),
         st.just(["rst"]),
     )
-    strat3 = st.fixed_dictionaries({"t": st.just("wseq"), "frames": st.lists(fr, min_size=2, max_size=30)})
+    strat3 = st.fixed_dictionaries({"t": st.just("wseq"), "frames": st.lists(fr, min_size=2, max_size=30), "debug": st.booleans()})
     ctx.search(strat3, replay, max_examples=200 if quick else 5000)
